@@ -41,8 +41,8 @@ def loc_of(r):
 
 def gen_config(rng, max_items):
     n_inputs = rng.choice([1, 2, 2, 3])
-    chroms = rng.choice([["1"], ["1", "2"], ["chr1", "chr10", "chr2"], ["2", "11", "X"]])
-    contigs = rng.choice([None, None, list(reversed(chroms)), list(chroms)] + ([SC.LONG] if chroms == ["2", "11", "X"] else []))
+    chroms = rng.choice([["1"], ["1", "2"], ["chr1", "chr10", "chr2"], ["3", "11", "X"]])
+    contigs = rng.choice([None, None, list(reversed(chroms)), list(chroms)] + ([SC.LONG] if chroms == ["3", "11", "X"] else []))
     by_barcodes = rng.random() < 0.5
     pairs = [("T1", "N1")] if rng.random() < 0.5 else [("T1", "N1"), ("T1", "N2"), ("T2", "N1")]
     items = []
